@@ -1,5 +1,5 @@
 """Definition-level properties: C08 ambiguity, C09 priorities, C10 literals/ignore-case, C11 subpatterns."""
-import os, sys, json, random, subprocess, time, re
+import os, re, sys, json, random, subprocess, time, re
 sys.path.insert(0, os.path.dirname(os.path.abspath(__file__)))
 from common import Run, audit, load_theorems, TRUSTED_BASE
 import pipeline as P
@@ -553,7 +553,35 @@ def lexer_sig(cap):
         head = t[:t.index('fn lex')] if 'fn lex' in t else t[:400]
         if 'fn _make_error' in t and 'fn _get_action' in t:
             mk = t[t.index('fn _make_error'):t.index('fn _get_action')]
-    return (cap.verdict, tuple(sorted(cap.errs)), tuple(leaves), cap.utf8, head, mk)
+    # what each leaf does once it has won (`_get_action`): one arm per leaf, compared as a multiset (round 29: a leaf that shares
+    # the arm of another leaf runs that leaf's callback)
+    arms = None
+    if cap.verdict == 'ACCEPT' and cap.codetext:
+        arms = tuple(sorted(action_arms(cap.codetext)))
+    return (cap.verdict, tuple(sorted(cap.errs)), tuple(leaves), cap.utf8, head, mk, arms)
+
+
+ARM = re.compile(r'_Option :: Some \(LogosLeaf :: Leaf\d+\) => \{')
+
+
+def action_arms(codetext):
+    """the bodies of the arms of `_get_action`, one per leaf, in leaf order (brace matching on the token text)"""
+    if 'fn _get_action' not in codetext:
+        return []
+    t = codetext[codetext.index('fn _get_action'):]
+    t = re.sub(r"b?'(\\.|[^\\'])'", "'c'", t)
+    t = re.sub(r'b?"(\\.|[^\\"])*"', '"s"', t)
+    out = []
+    for m in ARM.finditer(t):
+        depth, k = 1, m.end()
+        while k < len(t) and depth:
+            depth += t[k] == '{'
+            depth -= t[k] == '}'
+            k += 1
+        out.append(t[m.end():k - 1].strip())
+        if 'enum LogosLeaf' in t[:m.start()]:
+            break
+    return out
 
 
 def check_c18(tier, seed, log=print):
@@ -600,6 +628,24 @@ def check_c18(tier, seed, log=print):
                 run.violation('tie', dict(definition=c['src'], model=mv, real_error_classes=real_errs, real_errors=cap.errs, observed=obs,
                                           what='the tokenizer/parse_definition model (Attr.parseArgs, repaired rule) and the real parser disagree on this argument list',
                                           correspondence='T-D AttributeParser vs LogosModel.Attr'), no_input=True, key='attrtie|' + c['src'])
+    arms_checked = 0
+    for c, cap in zip(cases, caps):
+        if cap is None or cap.verdict != 'ACCEPT' or not cap.codetext or not cap.leaves:
+            continue
+        arms = action_arms(cap.codetext)
+        arms_checked += 1
+        bad = None
+        if len(arms) != len(cap.leaves):
+            bad = '%d leaves, %d arms in _get_action' % (len(cap.leaves), len(arms))
+        else:
+            for k, (a, lf) in enumerate(zip(arms, cap.leaves)):
+                if ('cb_result' in a) != bool(lf[2]):
+                    bad = 'leaf %d %s a callback, its arm %s one' % (k, 'has' if lf[2] else 'has not', 'runs' if 'cb_result' in a else 'does not run')
+                    break
+        if bad:
+            run.violation('leaf-action', dict(definition=c['src'], leaves=cap.leaves, arms=arms[:8], what='the generated code does not give every leaf an action of its own (%s): a match of one pattern runs what belongs to another - which one depends on the order of the items' % bad),
+                          key='leafaction|' + c['src'])
+    run.coverage['leaf_actions_checked'] = arms_checked
     for g, idxs in groups.items():
         logos_level = cases[idxs[0]]['family'] in ('c18-logos', 'c18-logos-pairs', 'c18-logos-overlap')
         # groups marked exact permute items that cannot move a leaf: the generated code itself must not change
